@@ -173,6 +173,94 @@ theorem Reachable.inv {opts : Options} {st : Stream} (h : Reachable opts st) : S
   | new => exact StreamInv_new opts
   | write _ data snk ih => exact (Stream_writeS_safe ih data snk).1
 
+/-! ### the 18-byte staging buffer stays within its capacity -/
+
+theorem Stream_readHeader_len (rd : Rd) (opts : Options) :
+    ESafe (fun x => x.2.rem.length ≤ rd.rem.length) (Stream.readHeader rd opts) := by
+  unfold Stream.readHeader
+  have h := readHeader_safe rd opts
+  cases hx : Lzma.readHeader rd opts with
+  | ok x =>
+    obtain ⟨params, rd'⟩ := x
+    rw [hx] at h
+    obtain ⟨hp, hd, hl⟩ := h
+    have h2 := DState_new_safe hp params.unpackedSize
+    dsimp only at hp hd hl h2 ⊢
+    split
+    · rename_i e he; rw [he] at h2; exact h2
+    · have h3 := RC_new_safe rd'
+      split
+      · rename_i rc rd'' hrc
+        rw [hrc] at h3
+        refine ESafe_ok.mpr ?_
+        have := h3.2
+        dsimp only at this ⊢
+        omega
+      · exact ESafe_ok.mpr hl
+  | error e =>
+    rw [hx] at h
+    cases e <;> first
+      | exact h
+      | exact ESafe_ok.mpr (Nat.le_refl _)
+
+theorem Stream_write_tmp_le {st : Stream} (hinv : StreamInv st) (h : st.tmp.length ≤ 18) (data : Bytes) :
+    MSafe (fun x => x.1.tmp.length ≤ 18) (st.write data) := by
+  unfold Stream.write
+  split
+  · exact MSafe_pure.mpr h
+  · by_cases hc : st.tmp.length > 0
+    · simp only [hc, ↓reduceIte]
+      intro snk
+      have := Stream_readHeader_len (Rd.ofBytes (st.tmp ++ List.take (min data.length (MAX_TMP_LEN - st.tmp.length)) data)) st.options
+      have hlen : (st.tmp ++ List.take (min data.length (MAX_TMP_LEN - st.tmp.length)) data).length ≤ 18 := by
+        simp [MAX_TMP_LEN]; omega
+      dsimp only
+      split
+      · rename_i e he; rw [he] at this; exact this
+      · rename_i rs rd' he
+        rw [he] at this
+        exact Nat.le_trans this hlen
+      · exact hlen
+    · simp only [hc, ↓reduceIte]
+      intro snk
+      have := Stream_readHeader_len (Rd.ofBytes data) st.options
+      dsimp only
+      split
+      · rename_i e he; rw [he] at this; exact this
+      · exact h
+      · show (List.take (min data.length MAX_TMP_LEN) data).length ≤ 18
+        simp [MAX_TMP_LEN]; omega
+  · rename_i rs hst
+    extract_lets jp
+    have hrs : RunInv rs := by unfold StreamInv at hinv; rw [hst] at hinv; exact hinv
+    have hjp : ∀ rs1, RunInv rs1 → MSafe (fun x => x.1.tmp.length ≤ 18) (jp rs1) := by
+      intro rs1 h1
+      simp -zeta only [jp]
+      refine MSafe.bind (readData_safe h1 _) ?_
+      rintro ⟨rs2, rd⟩ _
+      exact MSafe_pure.mpr (Nat.zero_le _)
+    split
+    · refine MSafe.bind (readData_safe hrs _) ?_
+      rintro ⟨rs1, _⟩ ⟨h1, _⟩
+      dsimp -zeta only
+      rw [M_pure_bind]
+      exact hjp _ h1
+    · rw [M_pure_bind]
+      exact hjp _ hrs
+
+theorem Reachable.tmp_le {opts : Options} {st : Stream} (h : Reachable opts st) :
+    st.tmp.length ≤ 18 := by
+  induction h with
+  | new => exact Nat.zero_le _
+  | write _ data snk ih =>
+    have := Stream_write_tmp_le (Reachable.inv ‹_›) ih data snk
+    unfold Stream.writeS
+    split
+    · rename_i snk' st' n heq
+      rw [heq] at this
+      exact this
+    · exact ih
+
 theorem Reachable.feed {opts : Options} : ∀ (fuel : Nat) {st : Stream} (data : Bytes) (acc : Nat)
     (snk : Sink), Reachable opts st → Reachable opts (Stream.feed fuel st data acc snk).2.1 := by
   intro fuel
